@@ -20,7 +20,7 @@ func init() {
 	register(&Rule{ID: "R09.2", Props: []string{"C09", "C20"}, Floor: 10,
 		Doc: "close is total (must-call on all paths, defers included)",
 		Run: runR09_2})
-	register(&Rule{ID: "R09.3", Props: []string{"C09", "C03"}, Floor: 2,
+	register(&Rule{ID: "R09.3", Props: []string{"C09", "C03", "C11"}, Floor: 2,
 		Doc: "no partial frame: read returns a buffer only after header and body ReadFull succeeded",
 		Run: runR09_3})
 	register(&Rule{ID: "R09.4", Props: []string{"C09", "C04"}, Floor: 40,
